@@ -331,7 +331,20 @@ def analyse(R, prog):
             R.bad(F("HISTORY-SEMANTICS", anchor, "CompleteBipartiteGraph views", v[1]))
         else:
             R.unknown("HISTORY-SEMANTICS", "CompleteBipartiteGraph views", anchor.key, v[1])
-    check_misc(R, prog)
+    # the view classes and the inherited bulk insertion are exercised by the same folded histories
+    covered = {"GraphEdgeList": ("Graph",), "DirectedEdgeList": ("DirectedGraph",), "BipartiteEdgeList": ("BipartiteGraph",),
+               "CompleteBipartiteGraph": ("CompleteBipartiteGraph",), "BaseGraph.add_edges_from": ("Graph", "DirectedGraph", "BipartiteGraph")}
+
+    def confirmed(f):
+        fn = f.function or ""
+        kinds = covered.get(fn) or covered.get(fn.split(".")[0])
+        if not kinds or "networkx" in fn:
+            return None
+        vs = [_graph_fold.verdict(prog, k, FULL.get("on", False)) for k in kinds]
+        return vs[0][1] if all(v_[0] is True for v_ in vs) else None
+    T = Result(P, "")
+    check_misc(T, prog)
+    merge_filtered(R, T, confirmed)
     check_bipartite_import(R, prog)
     from ._shared import check_no_shared_state
     check_no_shared_state(R, prog, P, ['cnfgen.graphs'], 100)
